@@ -172,41 +172,14 @@ class eftx_classic_2mul(Contract):
     properties = ['C20']
     split = ['p', 'rm']
     options = {'dialect': 'fpy', 'fpy_rnd': 'param', 'bounded': 6, 'bv_enum': True, 'bounded_try_ms': 150000, 'bounded_ms': 60000,
-               'int_cases': {'p': [2, 3, 4]}, 'enum_cases': {'rm': ['RNE', 'RNA']},
+               'int_cases': {'p': [2, 3, 4, 5]}, 'enum_cases': {'rm': ['RNE', 'RNA']},
                'fpy_operands': {'a': ('ma', 'ea'), 'b': ('mb', 'eb')}}
-    note = ('BOUNDED: RNE and RNA at p digits, ODD and even p in {2,3,4} (split point ceil(p/2) = 1, 2, 2; p = 5 is '
-            'eftx_classic_2mul_p5), all p-digit significands, exponents in [-6,6] (Dekker; unbounded exponent range, so no '
-            'underflow of a partial product)')
+    note = ('BOUNDED: RNE and RNA at p digits, ODD and even p in {2,3,4,5} (split point ceil(p/2) = 1, 2, 2, 3), '
+            'all p-digit significands, exponents in [-6,6] (Dekker; unbounded exponent range, so no underflow of a partial product)')
 
     def pre(ma, ea, mb, eb, p, rm, ctx):
         return {'ma': -pow2(p) < ma and ma < pow2(p), 'ea': -6 <= ea and ea <= 6,
                 'mb': -pow2(p) < mb and mb < pow2(p), 'eb': -6 <= eb and eb <= 6}
-
-    def post(ma, ea, mb, eb, p, rm, ctx, result):
-        a = fpy_operand(ma, ea)
-        b = fpy_operand(mb, eb)
-        s, t = fpy_val(result)
-        return {'s_rounded_product': s == fpy_rnd(ctx, a * b), 'exact': s + t == a * b}
-
-    def raises(ma, ea, mb, eb, p, rm, ctx):
-        return {}
-
-
-class eftx_classic_2mul_p5(Contract):
-    target = 'fpy2.libraries.eft:classic_2mul'
-    params = {'ma': 'int', 'ea': 'int', 'mb': 'int', 'eb': 'int', 'p': 'int', 'rm': 'RoundingMode', 'ctx': 'FpyCtx'}
-    returns = 'tuple[Fraction, Fraction]'
-    properties = ['C20']
-    split = ['p', 'rm']
-    options = {'dialect': 'fpy', 'fpy_rnd': 'param', 'bounded': 5, 'bv_enum': True, 'bounded_try_ms': 150000, 'bounded_ms': 60000,
-               'int_cases': {'p': [5]}, 'enum_cases': {'rm': ['RNE', 'RNA']},
-               'fpy_operands': {'a': ('ma', 'ea'), 'b': ('mb', 'eb')}}
-    note = ('BOUNDED: RNE and RNA at p = 5 digits (odd; split point ceil(p/2) = 3), all 5-digit significands, exponents in '
-            '[-5,5] (one less than for p <= 4: the static 60-bit magnitude bound of the fixed-point vectors)')
-
-    def pre(ma, ea, mb, eb, p, rm, ctx):
-        return {'ma': -pow2(p) < ma and ma < pow2(p), 'ea': -5 <= ea and ea <= 5,
-                'mb': -pow2(p) < mb and mb < pow2(p), 'eb': -5 <= eb and eb <= 5}
 
     def post(ma, ea, mb, eb, p, rm, ctx, result):
         a = fpy_operand(ma, ea)
